@@ -1558,6 +1558,16 @@ def tail_chain_edits():
                               ('(arg, 2);', (ln, c, ln, e)), ('(arg, 2) ;  # c', (ln, c, ln, e)),
                               (';', (ln, e, ln, e))):
                 out.append((src, (new, *rect), 'chain:' + '>'.join(chain)))
+        if len(chain) == 2:
+            # the last statement carries a trailing line comment (part of the enclosing blocks' bounding location, not of the
+            # statement) and the edit leaves the statement ending before the end of the put text
+            src = '\n'.join(inner).replace('res = jump(arg, 2)', 'res = jump(arg, 2)  # t')
+            lines = src.split('\n')
+            ln = next(i for i, l in enumerate(lines) if 'res = jump' in l)
+            c = lines[ln].index('(arg')
+            e = c + len('(arg, 2)')
+            for new in ('(arg) ', ' ', '(arg, 2, 33)'):
+                out.append((src, (new, ln, c, ln, e), 'chain-comment:' + '>'.join(chain)))
     return out
 
 
